@@ -4,7 +4,14 @@ FILE = 'scales/loadbalancer/zookeeper.py'
 CLASSES = {
   'ServerSet': dict(path='ServerSet', bases=[], fields={
     '_nodes': 'set[str]', '_members': 'dict[str,Member]', '_on_join': 'MemberCallback', '_on_leave': 'MemberCallback',
-    '_watching': 'bool', '_zk_path': 'any', '_zk': 'any', '_running': 'bool', '_notification_queue': 'Queue'}),
+    '_watching': 'bool', '_zk_path': 'any', '_zk': 'ZkClient', '_running': 'bool', '_notification_queue': 'NoteQueue',
+    '_member_factory': 'MemberFactory', '_member_filter': 'MemberFilter', '_cb_blocker': 'CallbackBlocker'}),
+  'ZkClient': dict(extern=True, path=None, bases=[], fields={}),
+  'MemberFactory': dict(extern=True, path=None, bases=[], fields={}),
+  'MemberFilter': dict(extern=True, path=None, bases=[], fields={}),
+  'CallbackBlocker': dict(extern=True, path=None, bases=[], fields={}),
+  # the worker's queue of (joined names, departed names); ghost: what the last put() handed over
+  'NoteQueue': dict(extern=True, path=None, bases=[], fields={'g_new': 'set[str]', 'g_removed': 'set[str]', 'g_puts': 'int'}, ghost=['g_new', 'g_removed', 'g_puts']),
   # a server-set member as the consumer sees it; g_left / g_joined count the notifications delivered for it
   'Member': dict(extern=True, path=None, bases=[], fields={'name': 'str', 'g_left': 'int', 'g_joined': 'int'}, ghost=['g_left', 'g_joined']),
   'MemberCallback': dict(extern=True, path=None, bases=[], fields={}),
@@ -34,7 +41,91 @@ FUNCTIONS = {
   ),
 }
 
+PREDICATES = {
+  # the member cache maps a name to an allocated member object
+  'MembersWf': (['s'], 'allocated(s._members) and forall(k, "str", implies(k in s._members, allocated(s._members[k])))'),
+}
+
+FUNCTIONS.update({
+  # the worker: for one queued (joined, departed) pair -- read the joined members, cache them, then for every departed
+  # name forget the cached member *before* telling the consumer (so a raising callback leaves nothing behind and the
+  # member cannot be announced as leaving twice), then announce the joined ones; no consumer exception stops the loop
+  'ServerSet._notification_worker': dict(
+    cls='ServerSet',
+    locals={'work': 'tuple[set[str],set[str]]', 'new_nodes': 'set[str]', 'removed_nodes': 'set[str]', 'new_members': 'list[Member]',
+            'removed_member': 'Member?', 'm': 'any'},
+    requires=['MembersWf(self)', 'allocated(self._notification_queue)', 'allocated(self._cb_blocker)'],
+    ensures=[], raises={'GreenletExit': dict()},
+    modifies=['dict[str,Member]', 'Member.g_left', 'Member.g_joined', '$cls', 'set[str]'], allocates='any',
+    yields=[{'at': 'self._notification_queue.get()'}, {'at': 'self._cb_blocker.ensure_safe()'}, {'at': 'self._zk_nodes_to_members(new_nodes)'}],
+    loops={
+      0: dict(invariant=['MembersWf(self)', 'allocated(self._notification_queue)', 'allocated(self._cb_blocker)'],
+              modifies=['dict[str,Member]', 'Member.g_left', 'Member.g_joined', '$cls', 'set[str]'], allocates='any'),
+      1: dict(invariant=['MembersWf(self)', 'allocated(new_members)', 'forall(k, 0, len(new_members), allocated(new_members[k]))',
+                         'forall(k, 0, _i1, new_members[k].name in self._members)'],
+              modifies=['dict[str,Member]'], allocates='any'),
+      2: dict(invariant=['MembersWf(self)', 'allocated(new_members)', 'forall(k, 0, len(new_members), allocated(new_members[k]))', 'allocated(removed_nodes)'],
+              modifies=['dict[str,Member]', 'Member.g_left', 'Member.g_joined'], allocates='any'),
+      3: dict(invariant=['MembersWf(self)', 'allocated(new_members)', 'forall(k, 0, len(new_members), allocated(new_members[k]))'],
+              modifies=['Member.g_left', 'Member.g_joined'], allocates='any'),
+    },
+    ghost=[
+      {'before': 'self._on_leave(removed_member)', 'do': [
+        'prove(not (m in self._members), "departed-member-forgotten-before-the-callback")',
+        'g_l0 = removed_member.g_left + removed_member.g_joined']},
+      {'after': 'self._on_leave(removed_member)', 'do': ['prove(removed_member.g_left + removed_member.g_joined == g_l0 + 1, "one-leave-notification")']},
+    ],
+    props=['C19'],
+  ),
+  # reading one member's data: touches no ServerSet state (the child-name cache _nodes and the member cache are the
+  # business of the children callback and of the worker only); a node deleted in between reads as None
+  'ServerSet._get_info': dict(
+    cls='ServerSet', params={'member': 'str'}, returns='any', may_yield=True,
+    requires=[], ensures=[], raises={'NoNodeError': dict(), 'Exception': dict()},
+    modifies=[], allocates=True, yields=[{'at': 'self._zk.get('}],
+    props=['C19'],
+  ),
+  'ServerSet._safe_zk_node_to_member': dict(
+    cls='ServerSet', params={'node': 'str'}, returns='Member?', may_yield=True,
+    requires=[], ensures=['implies(result is not None, allocated(result))'],
+    raises={'Exception': dict()},
+    modifies=['$cls'], allocates=True, yields=[{'at': 'self._get_info(node)'}],
+    props=['C19'],
+  ),
+  'ServerSet._zk_nodes_to_members': dict(
+    cls='ServerSet', params={'nodes': 'set[str]'}, returns='list[Member]', may_yield=True, trusted=True,
+    requires=[], ensures=['fresh(result)', 'forall(k, 0, len(result), allocated(result[k]) and (result[k].name in nodes))'],
+    raises={'Exception': dict()}, modifies=['$cls'], allocates=True,
+    notes='[m for m in (self._safe_zk_node_to_member(n) for n in nodes if filter(n)) if m]: nested generator, contract assumed; '
+          'its only callee with effects, _safe_zk_node_to_member, is verified separately (modifies nothing)',
+  ),
+  # children callback: the child-name cache becomes the (filtered) listing, and the difference to the previous listing
+  # is queued for the worker -- joined = listed now but not before, departed = listed before but not now
+  'ServerSet._on_set_changed': dict(
+    cls='ServerSet', params={'children': 'list[str]'},
+    locals={'current_nodes': 'set[str]', 'new_nodes': 'set[str]', 'removed_nodes': 'set[str]'},
+    requires=['allocated(self._nodes)', 'allocated(self._notification_queue)'],
+    ensures=['self._notification_queue.g_puts == old(self._notification_queue.g_puts) + 1',
+             'forall(x, "str", (x in self._notification_queue.g_new) == ((x in self._nodes) and not old(x in self._nodes)))',
+             'forall(x, "str", (x in self._notification_queue.g_removed) == (old(x in self._nodes) and not (x in self._nodes)))'],
+    modifies=['ServerSet._nodes', 'set[str]', 'NoteQueue.g_new', 'NoteQueue.g_removed', 'NoteQueue.g_puts', '$cls'], allocates=True,
+    literals={'[c for c in children if self._member_filter(c)]': 'list[str]'},
+    props=['C19'],
+  ),
+})
+
 EXTERNS = {
+  'ZkClient.get': dict(params=[('path', 'any')], returns='list[any]', fresh=True, allocates=True, yields=True, may_raise=['NoNodeError', 'Exception'],
+                       ensures=['result is not None', 'len(result) == 2'], notes='kazoo get(): (data, stat), or NoNodeError'),
+  'posixpath.join': dict(params=[('a', 'any'), ('b', 'any')], returns='any'),
+  'MemberFactory.__call__': dict(params=[('node', 'str'), ('data', 'any')], returns='Member', fresh=True, allocates=True, may_raise=['Exception'],
+                                 ensures=['result is not None', 'result.name == node'], notes='Member.from_node by default'),
+  'MemberFilter.__call__': dict(params=[('name', 'any')], returns='bool', notes='the consumer\'s member filter: a pure predicate on the child name'),
+  'NoteQueue.get': dict(params=[], returns='tuple[set[str],set[str]]', yields=True, may_raise=['GreenletExit'], allocates=True,
+                        ensures=['allocated(result[0]) and allocated(result[1])'], notes='blocks until a work item is queued'),
+  'CallbackBlocker.ensure_safe': dict(params=[], yields=True, may_raise=['GreenletExit'], notes='waits while get_members() is iterating'),
+  'NoteQueue.put': dict(params=[('item', 'tuple[set[str],set[str]]')], modifies=['NoteQueue.g_new', 'NoteQueue.g_removed', 'NoteQueue.g_puts'],
+                        ensures=['self.g_puts == old(self.g_puts) + 1', 'self.g_new == item[0]', 'self.g_removed == item[1]']),
   'MemberCallback.__call__': dict(params=[('member', 'Member')], may_raise=['Exception'],
                                   modifies=['Member.g_left', 'Member.g_joined'],
                                   ensures=['member.g_left + member.g_joined == old(member.g_left + member.g_joined) + 1'],
